@@ -145,8 +145,11 @@ Proof. destruct (r_timestamp r) as [(a, b)|]; frame_solve. Qed.
 
 Lemma apply_mss_frame s r : frame (tcp_apply_mss s r) s.
 Proof.
-  unfold tcp_apply_mss. destruct (r_max_seg_size r) as [m|]; [|apply frame_refl].
-  destruct (m =? 0); frame_solve.
+  unfold tcp_apply_mss.
+  repeat match goal with
+  | |- context [match ?x with _ => _ end] => destruct x
+  | |- context [if ?c then _ else _] => destruct c
+  end; frame_solve.
 Qed.
 
 (* the FIN was consumed: remote_seq_no + 1, rx_fin_received *)
